@@ -227,7 +227,9 @@ func Apply(s *State, op Op) (int, error) {
 		if revert {
 			left = len(rm)
 		}
-		if left < 3 {
+		// down to two tips: gotree refuses it for unrooted trees and delivers (a,b); for rooted
+		// ones; either is fine, a "successful" result is judged like any other
+		if left < 2 {
 			return Skipped, nil
 		}
 		if revert {
